@@ -19,7 +19,9 @@ RULE = ('Hypothesis-generated histories: 1-3 Transform2D and 1-3 Transform3D ins
         'after each assignment the property reads back the assigned value (2D rotation: value % 360.), exactly '
         'the listeners subscribed to that event on that transform logged one call whose argument equals - and '
         'for non-numbers is identical to - a read of the property right afterwards; nobody else logged '
-        'anything; constructor values read back the same way; other instances are unaffected. Non-trivial = a '
+        'anything; constructor values read back the same way; other instances are unaffected. '
+        'In ~19% of the cases a subscription is followed by listener churn: 64-150 short-lived listeners come and go on that transform (a window of eight stays alive). '
+        'Non-trivial = a '
         '2D rotation outside [0, 360) assigned with >= 1 rotation listener, or >= 2 transforms sharing a '
         'listener. Distinct = sha1 of canonical JSON.')
 ASSUMPTIONS = [
